@@ -333,7 +333,7 @@ func (w *World) Apply(ev string) (enabled bool, err error) {
 		if !ok {
 			txs, ok = w.CContent(p[1], w.Ledger())
 		}
-		if !ok && (p[1] == "pv" || p[1] == "pm") && len(p) >= 4 {
+		if !ok && (p[1] == "pv" || p[1] == "pm" || p[1] == "p2") && len(p) >= 4 {
 			txs, ok = w.ParamContent(p, w.Ledger())
 		}
 		if !ok {
@@ -403,6 +403,21 @@ func (w *World) ParamContent(p []string, l *Ledger) ([]*wire.MsgTx, bool) {
 			return nil, false
 		}
 		return []*wire.MsgTx{cb, spend([]*Coin{c}, out(amt, wl.Addrs[ai].Pk), out(c.Value-amt-fee, w.SPk))}, true
+	case "p2":
+		// x.p2.<amt1>.<addr1>.<amt2>.<addr2>: ONE transaction with two outputs to wallet A
+		// (different addresses / values), so that later spends take two inputs from one tx
+		if len(p) < 6 {
+			return nil, false
+		}
+		a1, _ := strconv.ParseInt(p[2], 10, 64)
+		i1, _ := strconv.Atoi(p[3])
+		a2, _ := strconv.ParseInt(p[4], 10, 64)
+		i2, _ := strconv.Atoi(p[5])
+		wl := w.Wallets["A"]
+		if i1 >= len(wl.Addrs) || i2 >= len(wl.Addrs) || a1 <= 0 || a2 <= 0 || a1+a2 >= c.Value-fee {
+			return nil, false
+		}
+		return []*wire.MsgTx{cb, spend([]*Coin{c}, out(a1, wl.Addrs[i1].Pk), out(a2, wl.Addrs[i2].Pk), out(c.Value-a1-a2-fee, w.SPk))}, true
 	case "pm":
 		n, _ := strconv.Atoi(p[2])
 		amt, _ := strconv.ParseInt(p[3], 10, 64)
